@@ -59,12 +59,61 @@ def normalise_cell(x):
   return x
 
 
+class _RecordingCursor(object):
+  description = [('recorded',)]
+
+  def __init__(self, rec):
+    self.rec = rec
+
+  def executescript(self, s):
+    self.rec.append(('script', s))
+
+  def execute(self, s, *a):
+    self.rec.append(('query', s))
+
+  def fetchall(self):
+    return []
+
+
+class _RecordingConnection(object):
+  def __init__(self, rec):
+    self.rec = rec
+
+  def cursor(self):
+    return _RecordingCursor(self.rec)
+
+  def close(self):
+    pass
+
+  def commit(self):
+    pass
+
+
+def executed_texts(statements):
+  """what the real sqlite3_logica.RunSqlScript (the function `logica.py <file> run <p>` calls)
+  hands to SQLite for this statement list: [('script' | 'query', text)].  The connection is a
+  recorder; the texts are then run on a connection of the caller's choice, or parsed."""
+  rec = []
+  saved = sqlite3_logica.SqliteConnect
+  sqlite3_logica.SqliteConnect = lambda: _RecordingConnection(rec)
+  try:
+    sqlite3_logica.RunSqlScript(list(statements), 'csv')
+  finally:
+    sqlite3_logica.SqliteConnect = saved
+  return rec
+
+
 def run_statements(con, statements):
-  """Same execution discipline as sqlite3_logica.RunSqlScript, on a given connection."""
+  """Executes the statements the way sqlite3_logica.RunSqlScript does (its own text assembly is
+  used, see executed_texts), on a given connection."""
   cur = con.cursor()
-  for s in statements[:-1]:
-    cur.executescript(s)
-  cur.execute(statements[-1])
+  texts = executed_texts(statements)
+  for kind, s in texts[:-1]:
+    if kind == 'script':
+      cur.executescript(s)
+    else:
+      cur.execute(s)
+  cur.execute(texts[-1][1])
   rows = cur.fetchall()
   header = [d[0] for d in cur.description]
   return header, [tuple(normalise_cell(c) for c in r) for r in rows]
